@@ -32,6 +32,9 @@ def run(prog, chk):
     location_choice(prog, chk)
     all_candidates_measured(prog, chk)
     connection_type_verbatim(prog, chk)
+    chosen_only_when_not_given(prog, chk)
+    from props import C08
+    C08.use_translation(prog, chk)  # an end point on a <use> with only x (or only y) is on the translated copy
     candidate_table(prog, chk)
     from props import geomalg
     geomalg.check_sites(prog, chk, "C13")
@@ -135,6 +138,37 @@ def candidate_table(prog, chk):
                     got[v] = {(p.get("res") or {}).get("path", "").split("::")[-1] for p in hirq.exprs(a["body"], "Path") if "LocSpec" in (p.get("res") or {}).get("path", "")}
     for v, locs in want.items():
         chk.ob(got.get(v) == locs, "A15.candidate-locations", v, el.where(), f"{v}: candidates {sorted(locs)}", f"{v} connections choose among {sorted(got.get(v) or [])} (cannot be read from the arm if empty); the documented candidates are {sorted(locs)} - a missing candidate means the nearest location is not found on some diagonals")
+
+
+def chosen_only_when_not_given(prog, chk):
+    """an attachment location is chosen (closest_loc / shortest_link) only for an end whose location the author did not
+    give: every `X_loc = Some(..)` in from_element sits under a test of `X_loc.is_none()` - not of some other variable
+    such as the direction, which is also unset for a named corner or centre location"""
+    fe = prog.body(CON + "Connector::from_element")
+    h = prog.hir[fe.id]
+    n = 0
+    for iff in hirq.exprs(h["body"], "If"):
+        then = iff["then"]
+        # assignments made directly in this then-block (not inside nested ifs)
+        nested = set()
+        for sub in hirq.exprs(then, "If"):
+            for a in hirq.exprs(sub, "Assign"):
+                nested.add(id(a))
+        targets = []
+        for a in hirq.exprs(then, "Assign"):
+            if id(a) in nested:
+                continue
+            fc = hirq.field_chain(a["l"])
+            if fc and fc[0].endswith("_loc") and len(fc) == 1:
+                targets.append(fc[0])
+        chooses = any(hirq.callee_path(c).split("::")[-1] in ("closest_loc", "shortest_link") for c in hirq.exprs(then, "Call"))
+        if not targets or not chooses:
+            continue
+        tested = sorted(hirq.field_chain(m["recv"])[0] for m in hirq.exprs(iff["cond"], "MethodCall") if m["name"] in ("is_none", "is_some") and hirq.field_chain(m["recv"]))
+        for tname in sorted(set(targets)):
+            n += 1
+            chk.ob(tname in tested and all(x.endswith("_loc") for x in tested), "A15.location-choice", f"{tname}:only-when-absent", fe.where(line=iff.get("line")), f"`{tname}` is chosen automatically only under `{tname}.is_none()`", f"`{tname}` is assigned an automatically chosen location under a test of {tested or 'something else'} instead of `{tname}.is_none()`: a location the author named (e.g. @br, @c - which have no direction) is overwritten by the closest candidate")
+    chk.floor("A15.location-choice:only-when-absent", n, 4, "automatic choice of an attachment location")
 
 
 def location_choice(prog, chk):
@@ -244,7 +278,14 @@ def routes(prog, chk):
             if not ds or not all(s and e for s, e in ds):
                 continue
             pts = _points_of(arm["body"])
+            starts0 = sorted({d for s, e in ds for d in s})
+            ends0 = sorted({d for s, e in ds for d in e})
+            key0 = f"{'|'.join(starts0)}->{'|'.join(ends0)}"
+            if arm.get("guard"):
+                chk.bad("A15.rectilinear", key0 + ":unconditional", rd.where(line=arm.get("line")), f"the corner route for {key0} depends on a further condition (a guarded match arm): for some positions of the end points the connector is routed differently - e.g. collapsed into one slanted segment instead of axis-parallel ones")
             if len(pts) < 3:
+                if pts:
+                    chk.bad("A15.rectilinear", key0 + ":has-corner", rd.where(line=arm.get("line")), f"the corner route for {key0} has {len(pts)} points: a single segment between two points that are not level is not axis-parallel")
                 continue
             n += 1
             lets_arm = dict(lets)
